@@ -11,3 +11,6 @@ open PyPred
 #print axioms C02_fixed_agrees
 #print axioms optimizeT_sound
 #print axioms noImpl_trace_nil
+#print axioms C02_no_new_constants
+#print axioms C02_defined_preserved
+#print axioms optimizeT_closed
